@@ -259,4 +259,38 @@ example : (mpf_mul_ui 0 (mkSt r5 default default) .r (B - 1)).ok = true := by de
 -- negative: `prec = r->_mp_prec + 1` keeps three limbs and stores the carry at rp[3]
 example : (mpf_mul_ui 1 (mkSt r2 u5 default) .u (B - 1)).ok = false := by decide
 
+/-- mpf_add (r, u, v) (mpf/add.c), operands of equal sign or a zero operand, every operand length and exponent, every alias
+    pattern (u, v ∈ {r, u, v}: r == u, r == v, u == v, all three).  PARTIAL — proved: no load or store leaves a block (the
+    operands are read inside their |SIZ| limbs after the two cuts to `prec` limbs; the three alignments fill at most `prec`
+    limbs of the TMP area of `prec` limbs; MPN_COPY (rp, tp, rsize) and the UNCONDITIONAL store `rp[rsize] = cy` use
+    indices ≤ PREC, inside the PREC + 1 limbs; the early copy of the `ediff >= prec` case copies ≤ PREC limbs), the other
+    variables, PREC (r) and the block length are unchanged.
+    Missing (run only, ops `as7_add`): `s'.r.view = Mpf.add s.r.prec (us = .r) (vs = .r) (s.obj us).view (s.obj vs).view`
+    and hence `Mpf.WF s'.r.view`; the zero-operand paths are covered by `mpf_set_dest_safe`. -/
+theorem mpf_add_dest_safe_partial (s : St) (us vs : Src) (hs : s.ok = true) (hr : DestWF s.r)
+    (hu : OpndWF (s.obj us)) (hv : OpndWF (s.obj vs)) :
+    ∀ s', mpf_add 0 s us vs = some s' →
+      s'.ok = true ∧ s'.u = s.u ∧ s'.v = s.v ∧ s'.r.prec = s.r.prec ∧ s'.r.blk.alloc = s.r.blk.alloc ∧ BlkWF s'.r.blk := by
+  intro s' h
+  have F := mpf_add_frame s us vs hs hr hu hv s' h
+  exact ⟨F.ok, F.u, F.v, F.prec, F.alloc, F.wf⟩
+
+/-- three limbs of ones, exponent 3 -/
+def u3 : FObj := mkObj 0 false 3 [B - 1, B - 1, B - 1] 1
+/-- two limbs of ones, exponent 3 resp. 2 -/
+def v2 : FObj := mkObj 0 false 3 [B - 1, B - 1] 1
+def v2b : FObj := mkObj 0 false 2 [B - 1, B - 1] 1
+/-- the destination holding three limbs with PREC = 2 -/
+def r3 : FObj := mkObj 2 false 3 [B - 1, B - 1, B - 1] 3
+
+-- u cut to two limbs, v aligned at the top: carry limb stored at rp[2]
+example : (mpf_add 0 (mkSt r2 u3 v2) .u .v).map (fun s => (s.ok, s.out)) = some (true, 3, 4, [B - 2, B - 1, 1]) := by decide
+-- exponent difference 1: v cut to one limb
+example : (mpf_add 0 (mkSt r2 u3 v2b) .u .v).map (fun s => (s.ok, s.out)) = some (true, 3, 4, [B - 2, 0, 1]) := by decide
+-- r == u, and r == u == v
+example : (mpf_add 0 (mkSt r3 default v2b) .r .v).map (fun s => (s.ok, s.out)) = some (true, 3, 4, [B - 2, 0, 1]) := by decide
+example : (mpf_add 0 (mkSt r3 default default) .r .r).map (fun s => (s.ok, s.out)) = some (true, 3, 4, [B - 2, B - 1, 1]) := by decide
+-- negative: `prec = r->_mp_prec + 1` keeps three limbs and stores the carry at rp[3]
+example : (mpf_add 1 (mkSt r2 u3 v2) .u .v).map (fun s => s.ok) = some false := by decide
+
 end Mpir.AllocSafe7
